@@ -1,0 +1,34 @@
+//go:build verif
+// +build verif
+
+// Verification hook (H5, property C16): exports of the VRF building blocks so that a harness can
+// act as an adversarial prover (choose Gamma and the nonce itself). Compiled only with -tags verif.
+package ed25519
+
+import "com.tuntun.rangers/node/src/common/ed25519/edwards25519"
+
+// VerifHashToCurve is hashToCurve.
+func VerifHashToCurve(m []byte, pk PublicKey) [32]byte { return hashToCurve(m, pk) }
+
+// VerifExpandSecret is expandSecret.
+func VerifExpandSecret(sk PrivateKey) (x *[32]byte, truncatedHashedSK *[32]byte) {
+	return expandSecret(sk)
+}
+
+// VerifHashPoints is hashPoints.
+func VerifHashPoints(p1, p2, p3, p4 edwards25519.ExtendedGroupElement) [16]byte {
+	return hashPoints(p1, p2, p3, p4)
+}
+
+// VerifNonce is vrfNonceGeneration.
+func VerifNonce(truncatedHashedSK [32]byte, h [32]byte) *[32]byte {
+	return vrfNonceGeneration(truncatedHashedSK, h)
+}
+
+// VerifIsCanonical is isCanonical.
+func VerifIsCanonical(s [32]byte) byte { return isCanonical(s) }
+
+// VerifStringToPoint is stringToPoint.
+func VerifStringToPoint(point *edwards25519.ExtendedGroupElement, s [32]byte) bool {
+	return stringToPoint(point, s)
+}
